@@ -81,10 +81,10 @@ func (r *Run) loadKnown() {
 		if !strings.HasPrefix(line, "known:") {
 			continue
 		}
-		// known: property=C07 rule=C07.S2 key=<key> :: text
+		// known: property=C07 rule=C07.S2 key=<key> ;; text
 		body := strings.TrimSpace(strings.TrimPrefix(line, "known:"))
 		text := ""
-		if i := strings.Index(body, " :: "); i >= 0 {
+		if i := strings.Index(body, " ;; "); i >= 0 {
 			text = body[i+4:]
 			body = body[:i]
 		}
